@@ -246,3 +246,66 @@ func VerifC11FillMore(start, end, avail int) (ns, ne int, errs string, size int)
 	}
 	return s.start, s.end, errs, size
 }
+
+// VerifC11DrainOp is one step of a drain-side script: 's' stage a reply of Len
+// bytes whose first two bytes carry ID, 'f' flush, 'x' the peer goes away.
+type VerifC11DrainOp struct {
+	Kind byte
+	ID   uint16
+	Len  int
+}
+
+// VerifC11DrainRun drives the REAL tcpStream drain side (stage / flush, with
+// beforeWrite inside stage) over a pipe whose other end collects the frames
+// that reach the connection. It returns, per step, whether the call returned
+// nil, and the IDs of the frames written, in order.
+func VerifC11DrainRun(ops []VerifC11DrainOp) (okays []bool, wire []uint16, drainSize int) {
+	a, b := net.Pipe()
+	s := new(tcpStream)
+	s.reset(a)
+	if s.wait != nil {
+		s.wait.Stop()
+	}
+	drainSize = len(s.drain)
+	got := make(chan []uint16, 1)
+	go func() {
+		var ids []uint16
+		for {
+			var l [2]byte
+			if _, err := io.ReadFull(b, l[:]); err != nil {
+				break
+			}
+			n := int(l[0])<<8 | int(l[1])
+			body := make([]byte, n)
+			if _, err := io.ReadFull(b, body); err != nil {
+				break
+			}
+			if n >= 2 {
+				ids = append(ids, uint16(body[0])<<8|uint16(body[1]))
+			}
+		}
+		got <- ids
+	}()
+	for _, op := range ops {
+		switch op.Kind {
+		case 's':
+			p := make([]byte, op.Len)
+			if op.Len >= 2 {
+				p[0], p[1] = byte(op.ID>>8), byte(op.ID)
+			}
+			okays = append(okays, s.stage(p) == nil)
+		case 'f':
+			okays = append(okays, s.flush() == nil)
+		case 'x':
+			_ = b.Close() // the peer is gone: every later write fails
+			okays = append(okays, true)
+		}
+	}
+	_ = a.Close()
+	_ = b.Close()
+	select {
+	case wire = <-got:
+	case <-time.After(2 * time.Second):
+	}
+	return okays, wire, drainSize
+}
